@@ -96,7 +96,7 @@ for p in sorted(glob.glob(os.path.join(V, "evidence", "C*.json"))):
 
 out.append("""### 7.4 Independent seeded changes (sub-agents given only the property text and a scratch worktree)
 
-Five rounds, one change per property and round; the second- and third-round agents were additionally told the one-line
+Six rounds, one change per property and round; the second- and third-round agents were additionally told the one-line
 descriptions of the earlier changes for their property and asked for a different site and mechanism. Each change was confirmed by
 `tools/verify_seed.sh` (demo passes on HEAD, patch builds, suite 25/25, demo fails with the patch) and run against the checks with
 `tools/run_seed.sh` (apply to /repo, check, `git checkout`); `tools/all_seeds.sh` re-runs all of them against the current checks.
@@ -162,10 +162,25 @@ string, escape or comment, four bytes in one call against the same bytes one per
 byte-per-call side starts each call with the code point under construction unconstrained. The corrected version of the same
 fast path - guard `st_pos == 0` - is a regression mutant that must stay silent).
 
-Across the five rounds (100 changes): 58 were caught by the checks as they stood when the change arrived (25 of 40, 11, 10, 12 per
-round), the others after a rule was added or shared; the miss rate per round did not fall (the agents are told the earlier changes
-and move elsewhere), which is the honest measure of how much of each property a rule set of this kind covers. Every added rule
-was then run against all stored refactorings.
+Sixth round (20 changes): caught as submitted 9 (c01f, c03f, c05f, c07f, c08f, c09f, c13f, c19f, c20f). Missed, and the rule each
+caused: c02f (C20.R6: an open() for writing has O_CREAT | O_TRUNC; shared into C02), c10f (C10.R8: the value that reaches the
+integer -> double conversion of `json_object_get_double` is the stored value read with the signedness of its tag), c11f (C11.R6
+extended to the whole module: the node's data pointer never reaches strcmp / strlen / strdup ...), c12f (C12.R10: every lookup
+entry reports success on "/a" when the member a is present and null), c14f (C14.R1: the base handed to `newlocale` is never the
+locale read at entry), c15f (C15.R4: entries without a depth argument create their parser with the default limit, whatever text
+they are given), c16f (C04.R5: `json_tokener_reset` writes no configuration field; shared into C16), c17f (C17.R5: the index
+pointer given to an array element points into storage of the current activation), c18f (C18.R3: a buffer filled by `read` / `fread`
+/ `recv` ... is a write to it). **Not caught, and recorded as such** (`not_caught` in their meta.json; the regression harness
+reports them without failing): c04f - a shortcut in the Infinity state that compares seven bytes when the *chunk* (not what is
+left of it) has eight: it needs a token that starts in the middle of a chunk of at least eight bytes, and walking nine-byte
+chunks through the tokener costs minutes per configuration (tried, removed); c06f - one tail case of `hashlittle`'s 16-bit-aligned
+branch adds a byte twice, so the hash depends on the key's address modulo 4: the evaluator does not model uint32 / uint16 / uint8
+views of one buffer byte-accurately.
+
+Across the six rounds (120 changes): 67 were caught by the checks as they stood when the change arrived (25 of 40, then 11, 10, 12,
+9 of 20), 50 after a rule was added or shared, 2 are recorded as not caught, 1 was neutralised by a fix. The miss rate per round
+did not fall (the agents are told the earlier changes and move elsewhere), which is the honest measure of how much of each
+property a rule set of this kind covers. Every added rule was then run against all stored refactorings.
 
 ### 7.5 Behaviour-preserving refactorings (the "never raises an alarm where the property holds" side)
 
@@ -212,9 +227,14 @@ A third suite, **B3-c04 .. B3-c19** (ten refactorings), was commissioned after t
 functions the newest rules read (the text -> integer helpers, the token -> member-name code of pointer and patch, the print buffer,
 the hash table's insert / lookup / delete / resize, the string set operation, the deep-copy routines, every function that releases
 a field or a global, the number state of the tokener, the member-name ownership of the tokener). What it found is listed with the
-false alarms of 7.2. `tools/par_regress.py` runs the whole regression - unchanged tree, the 50 refactorings x 20 checks, the 100
+false alarms of 7.2. `tools/par_regress.py` runs the whole regression - unchanged tree, the 56 refactorings x 20 checks, the 120
 seeded changes, the ~260 developer mutants - in parallel scratch worktrees with private analysis caches (about 40 minutes on 16
 cores), never touching /repo or /verif/evidence.
+
+A fourth suite, **B4-c03 .. B4-c17** (six refactorings aimed at the code the fifth-round rules read), found two more: the old
+structural C07.R7 (qsort called with `arr->array, arr->length` literally; now UNDECIDED in favour of the evaluation rule C07.R8)
+and a `zeroinitializer` element inside a constant table that the evaluator could not read (the traversal's decision table then
+saw unknown values).
 
 What remains after these corrections (and is accepted): a refactoring that removes a function a rule is anchored in by name ends
 as analysis-broken (exit 2) for that one check, never as a violation; exit 2 asks for the anchor table to be re-confirmed by a
@@ -237,6 +257,11 @@ on B2-c08 and B2-c13, was restated as an evaluation rule that has no named ancho
   list; a new allocator wrapper must be added there (its absence shows as a drop in an instance floor, exit 2).
 * Internal functions absent from `tools/known_internal.json` are inlined before analysis; a new *external* helper is not, and
   rules that meet it answer UNDECIDED or analysis-broken, not a violation.
+* Chunk lengths: the tokener is evaluated on chunks of 1, 2 and 4 bytes from every configuration. A shortcut that only applies to
+  longer chunks and starts in the middle of one (seed S-c04f) is outside that family; so is anything that depends on how much input
+  *remains* rather than on the bytes seen.
+* Bit-level arithmetic through reinterpreting pointer casts (the string hash reading one buffer as uint32 / uint16 / uint8, seed
+  S-c06f) is not modelled; what is decided about the hash table is relative to "the hash is a function of the key's bytes".
 * UNDECIDED obligations are printed and never count as proven: C10.R2 has one (unsigned-compare guarded add in `json_object_int_inc`).
 
 """)
